@@ -310,7 +310,8 @@ impl Ctx {
             // call record first, flushed, so that an abort which escapes catch_unwind
             // still leaves the offending input on disk
             let inp = input();
-            let rec = json!({"ev":"call","entry":entry,"group":self.cur_group,"input":inp});
+            let t_ms = std::time::SystemTime::now().duration_since(std::time::UNIX_EPOCH).map(|d| d.as_millis() as u64).unwrap_or(0);
+            let rec = json!({"ev":"call","t_ms":t_ms,"entry":entry,"group":self.cur_group,"input":inp});
             let _ = writeln!(log, "{rec}");
             let _ = log.flush();
             let r = catch_unwind(AssertUnwindSafe(f));
